@@ -11,13 +11,16 @@
 (* observed values are used; the model's prediction is never consulted.    *)
 (*                                                                         *)
 (*  RespOK   a responder reported an honest account key K only if a        *)
-(*           requester session of K's owner sent its step 3 in a session   *)
-(*           with the same ephemeral pair (possession proved in this very  *)
-(*           session); a successful responder reports some key             *)
+(*           requester session of K's owner, addressed to this responder's *)
+(*           account, sent its step 3 in a session with the same ephemeral *)
+(*           pair (possession proved in this very session, to this party); *)
+(*           a successful responder reports some key                       *)
 (*  ReqOK    a requester succeeded (target not the intruder's account)     *)
 (*           only against a responder session of the target's owner that   *)
 (*           sent its step 4 with the same ephemeral pair (the peer        *)
 (*           endpoint holds sk(target))                                    *)
+(*  AckOK    a responder does not complete on a well-formed acknowledge    *)
+(*           that says success = false                                     *)
 (*  CompleteOK  frames relayed unmodified, all five, between a requester   *)
 (*           and the responder it targets: both succeed and the responder  *)
 (*           learns exactly the requester's key                            *)
@@ -52,12 +55,15 @@ RespOK(s) == (S[s].role = "rsp" /\ S[s].ret = "ok") =>
                /\ S[s].key # "-"
                /\ S[s].key \in Honest =>
                     \/ \E r \in Idx : /\ S[r].role = "req" /\ S[r].owner = S[s].key
+                                      /\ S[r].target = S[s].owner
                                       /\ S[r].s3 /\ SamePair(r, s)
                     \/ Excused(s)
 ReqOK(r) == (S[r].role = "req" /\ S[r].ret = "ok" /\ S[r].target # "E") =>
                \/ \E s \in Idx : /\ S[s].role = "rsp" /\ S[s].owner = S[r].target
                                  /\ S[s].s4 /\ SamePair(r, s)
                \/ Excused(r)
+AckOK(s) == (S[s].role = "rsp" /\ S[s].ret = "ok") =>
+              ~(Len(S[s].in) = 3 /\ S[s].in[3] = "I:ack-")
 Relayed(r, s) == /\ S[r].in = <<F(s, 1), F(s, 2)>>
                  /\ S[s].in = <<F(r, 1), F(r, 2), F(r, 3)>>
 CompleteOK == \A r \in Idx, s \in Idx :
@@ -66,7 +72,7 @@ CompleteOK == \A r \in Idx, s \in Idx :
 
 MReset == Consume("reset")
 MFin == /\ Consume("fin")
-        /\ \A i \in Idx : RespOK(i) /\ ReqOK(i)
+        /\ \A i \in Idx : RespOK(i) /\ ReqOK(i) /\ AckOK(i)
         /\ CompleteOK
 
 MNext == MReset \/ MFin
